@@ -28,16 +28,16 @@ except Exception:                       # pragma: no cover - optional helper
     _FAST_REUSE = False
 
 
-def _run_execution(build, choose, focus, max_steps=20000):
+def _run_execution(build, choose, focus, max_steps=20000, granularity="gil"):
     """one controlled execution.  harness/fastsched.py makes the same decisions in the same order as detsched.DetSched
     (its own self-test asserts that); with reuse_threads the logical threads run on pooled OS threads - thread-local
     state of the code under test is only the per-thread trampoline, which is idle again after every run (its run() resets
     it in a finally clause).  Falls back to the plain DetSched when the helper is not there."""
     if _fast is None:
-        return shims.run_execution(build, choose, focus=focus, max_steps=max_steps)
+        return shims.run_execution(build, choose, focus=focus, max_steps=max_steps, granularity=granularity)
     if _FAST_REUSE:
-        return _fast.run_execution(build, choose, focus=focus, max_steps=max_steps, reuse_threads=True)
-    return _fast.run_execution(build, choose, focus=focus, max_steps=max_steps)
+        return _fast.run_execution(build, choose, focus=focus, max_steps=max_steps, granularity=granularity, reuse_threads=True)
+    return _fast.run_execution(build, choose, focus=focus, max_steps=max_steps, granularity=granularity)
 
 
 # ---- exploration order: fewest preemptions first ---------------------------------------------------------------
@@ -658,7 +658,7 @@ def carrier_equivalence(ck, explore, jobs) -> None:
         ck.note("pooled_thread_equivalence", "not applicable (plain DetSched in use)")
         return
     sample = jobs[:: max(1, len(jobs) // 6)][:6]
-    small = [(j[0], 2, 60, 3, j[4], j[5]) for j in sample]
+    small = [(j[0], 2, 60, 3, j[4], j[5]) for j in sample if len(j) <= 6]
     pooled = [sorted(json.dumps(t[0], sort_keys=True) for t in explore(j)["traces"]) for j in small]
     _FAST_REUSE = False
     try:
@@ -958,6 +958,12 @@ class DelSink:
 def so_patches() -> Dict[str, Dict[str, Any]]:
     return {
         "reactivex.observer.scheduledobserver": {"threading": lean_ns},
+        # the handles of scheduled runs are shared state too (ScheduledObserver.disposable is a SerialDisposable written by
+        # ensure_active, ScheduledItem.disposable a SingleAssignmentDisposable read by the loop): a switch point before every
+        # acquisition of their locks, i.e. right before each assignment / dispose
+        "reactivex.disposable.serialdisposable": {"RLock": LeanRLock},
+        "reactivex.disposable.singleassignmentdisposable": {"RLock": LeanRLock},
+        "reactivex.disposable.disposable": {"RLock": LeanRLock},
         "reactivex.scheduler.eventloopscheduler": {"threading": loop_ns},
         "reactivex.scheduler.timeoutscheduler": {"Timer": shims.Timer},
         "reactivex.scheduler.scheduler": {"default_now": shims.now},
@@ -1075,7 +1081,8 @@ def so_traces(ds: detsched.DetSched) -> List[List[Dict[str, Any]]]:
 
 
 def so_explore(args) -> Dict[str, Any]:
-    sc, bound, max_sched, nrandom, seed, lines = args
+    sc, bound, max_sched, nrandom, seed, lines = args[:6]
+    gran = args[6] if len(args) > 6 else "gil"
     traces: Dict[str, List[Any]] = {}
     stats = {"executions": 0, "deadlocks": 0, "steplimit": 0, "unexpected_thread_exc": 0}
     exc_samples: List[str] = []
@@ -1083,7 +1090,7 @@ def so_explore(args) -> Dict[str, Any]:
     focus = FOCUS_C32 if lines else ()
 
     def run_one(choose):
-        return _run_execution(build, choose, focus=focus, max_steps=6000)
+        return _run_execution(build, choose, focus=focus, max_steps=6000, granularity=gran)
 
     with patched_for(_so_patch_table()):
         ex = CostExplorer(bound=bound, max_schedules=max_sched, random_schedules=nrandom, seed=seed)
@@ -1103,7 +1110,7 @@ def so_explore(args) -> Dict[str, Any]:
                     traces[key] = [tr, 0, [d[1] for d in ds.decisions], lines, so_id]
                 traces[key][1] += 1
     return {"scenario": sc, "traces": list(traces.values()), "stats": stats, "truncated": ex.truncated,
-            "complete_bound": ex.complete_bound, "exc_samples": exc_samples}
+            "complete_bound": ex.complete_bound, "exc_samples": exc_samples, "granularity": gran}
 
 
 SO_TRACE_CONSTS = dict(Producers={0, 1, 2, 3}, LoopThreads=set(range(11, 31)), MaxCalls=0)
@@ -1173,9 +1180,9 @@ def so_scenarios(tier: str, seed: int) -> List[Dict[str, Any]]:
             out.append({"kind": kind, "scripts": [list(x) for x in scripts], "sched": sched, "raise_at": raise_at, "order": order,
                         "budget": budget})
     if quick:
-        add("observe_on", ("NNC",), "eventloop", 0, 1, 300)
-        add("observe_on", ("NNNE",), "eventloop", 0, 1, 250)
-        add("observe_on", ("NNC",), "eventloop", 2, 1, 200)
+        add("observe_on", ("NNC",), "eventloop", 0, 1, 900)
+        add("observe_on", ("NNNE",), "eventloop", 0, 1, 500)
+        add("observe_on", ("NNC",), "eventloop", 2, 1, 400)
         add("observe_on", ("NCN",), "eventloop_exit", 0, 1, 200)
         add("observe_on", ("NNC",), "newthread", 0, 1, 250)
         add("observe_on", ("NNC",), "timeout", 1, 1, 200)
@@ -1256,6 +1263,11 @@ def so_run(pid: str, tier: str, rule: str, assumptions: List[str]) -> int:
         else:
             jobs.append((sc, bound, 1500, 100, ck.seed, True))
             jobs.append((sc, bound, 300, 30, ck.seed + 1, False))
+    # language-level pass: a thread switch is allowed between ANY two traced lines (more than the pinned GIL interpreter can do,
+    # which only switches at calls / function entry / backward jumps).  Rejections found only here are reported as
+    # `language_level_only` in the evidence (DESIGN 2.4) and never as violations.
+    for sc in [x for x in scs if x["kind"] == "observe_on" and x["sched"] == "eventloop" and x["raise_at"] == 0][: 2 if quick else 6]:
+        jobs.append((sc, 2, 700 if quick else 3000, 0, ck.seed, True, "line"))
     t0 = _time.time()
     pool, pending = _pool_map(so_explore, jobs, procs=6 if quick else 8, timeout=0)
     design: Dict[str, Any] = {}
@@ -1286,7 +1298,7 @@ def so_run(pid: str, tier: str, rule: str, assumptions: List[str]) -> int:
         complete[str(r["complete_bound"])] = complete.get(str(r["complete_bound"]), 0) + 1
         exc_samples += r["exc_samples"]
         for (tr, n, dec, lines, so_id) in r["traces"]:
-            batch.append((tr, r["scenario"], n, dec, lines, so_id))
+            batch.append((tr, r["scenario"], n, dec, lines, so_id, r.get("granularity", "gil")))
     if ck.extra.get("conc_steplimit"):
         raise RuntimeError("step limit hit in a C32 execution (machinery)")
     if not quick:
@@ -1297,9 +1309,18 @@ def so_run(pid: str, tier: str, rule: str, assumptions: List[str]) -> int:
     ck.note("trace_spec_selftest", f"{len(SO_SELFTEST)} hand-made traces judged as expected ({sum(1 for x in SO_SELFTEST if not x[1])} rejected)")
     for r in ress:
         ck.add_tlc(r, f"trace validation ({len(batch)} distinct per-observer traces + {len(SO_SELFTEST)} self-test traces)")
+    gil_rejected = {json.dumps(batch[i][0], sort_keys=True) for (i, _) in rejected if batch[i][6] == "gil"}
+    lang_only: Dict[str, int] = {}
     for (idx, upto) in rejected:
-        tr, sc, n, dec, lines, so_id = batch[idx]
+        tr, sc, n, dec, lines, so_id, gran = batch[idx]
         w = so_witness(tr, upto)
+        if gran != "gil":
+            if json.dumps(tr, sort_keys=True) not in gil_rejected:
+                k = f"{sc['kind']} {sc['sched']} {''.join(sc['scripts'][0])}: {w['failure']}"
+                lang_only[k] = lang_only.get(k, 0) + 1
+                if lang_only[k] == 1:
+                    ck.sample({"language_level_only": k, "trace": tr, "decisions": dec})
+            continue
         # witness for the known finding: the observer itself did not fault, but another observer's callback raised on the
         # SAME single-threaded event loop, whose thread the exception killed
         own_fault = any(e["e"] == "dend" and e["raised"] for e in tr)
@@ -1309,6 +1330,10 @@ def so_run(pid: str, tier: str, rule: str, assumptions: List[str]) -> int:
                  "starved_by_foreign_fault_on_shared_event_loop": starved,
                  "scheduled_observer": so_id, "witness": w, "scenario": sc, "rejected_at": upto, "trace": tr, "schedules_with_this_trace": n,
                  "decisions": dec, "line_switch_points": lines})
+    ck.note("language_level_only", lang_only)
+    for k, n in lang_only.items():
+        print(f"LANGUAGE-LEVEL-ONLY: property={pid} {k} in {n} distinct trace(s) - needs a thread switch between two call-free lines, "
+              f"which the pinned GIL interpreter cannot make; not a violation", flush=True)
     summ: Dict[str, int] = {}
     for v in ck.violations:
         k = f"{v['kind']} {v['sched']} {v['failure']} raise_at={v['raise_at']} observer={v['scheduled_observer']}"
@@ -1316,7 +1341,7 @@ def so_run(pid: str, tier: str, rule: str, assumptions: List[str]) -> int:
     ck.note("unexplained_violation_summary", summ)
     for want in ("observe_on", "replay"):
         for b in batch:
-            if b[1]["kind"] == want and len(b[0]) >= 8:
+            if b[6] == "gil" and b[1]["kind"] == want and len(b[0]) >= 8:
                 ck.sample({"scenario": b[1], "scheduled_observer": b[5], "trace": b[0]})
                 break
     ck.impl += total
